@@ -118,8 +118,8 @@ Lemma read_block_spec s s' blk : read_block s = (s', blk) ->
   blk = firstn 16 (concat s) /\ concat s' = skipn 16 (concat s).
 Proof. intros H. apply (read_block_loop_spec 17 s 16); [cbn; lia|exact H]. Qed.
 
-Section CBC.
-Variables E D : bytes -> bytes -> bytes.
+Section CBCW.
+Variable E : bytes -> bytes -> bytes.
 
 (* the last chaining value after a list of blocks *)
 Fixpoint cbc_last (k prev : bytes) (bs : list bytes) : bytes :=
@@ -235,23 +235,39 @@ Proof.
     apply E_len, xor_len16; [apply pad_block_len|]; assumption.
 Qed.
 
-(* ============================== reader ============================================================ *)
-(* what the cipher stream decodes to: look-ahead block `look`, then the remaining blocks *)
-Fixpoint dec_all (k prev look : bytes) (rest : list bytes) : res bytes :=
-  let p := xor_bytes (D k look) prev in
-  match rest with
-  | [] => pkcs7_unpad_block p
-  | nx :: r => do t <- dec_all k look nx r; Ok (p ++ t)
-  end.
-(* what the reader still owes its caller *)
-Definition stream (st : cbcr) : res bytes :=
-  if r_eof st then Ok (r_rem st)
-  else do t <- dec_all (r_key st) (r_prev st) (r_look st) (chunks 16 (concat (r_src st))); Ok (r_rem st ++ t).
-Definition wf (st : cbcr) : Prop :=
-  r_eof st = false ->
-  len16 (r_look st) /\ len16 (r_prev st) /\ (length (concat (r_src st)) mod 16 = 0)%nat.
+End CBCW.
 
-Hypothesis D_len : forall k c, len16 c -> len16 (D k c).
+(* what an ideal byte-stream reader over pt delivers for the same buffer sizes *)
+Fixpoint deliver (pt : bytes) (ns : list N) : list bytes :=
+  match ns with [] => [] | n :: r => ftake n pt :: deliver (fdrop n pt) r end.
+
+(* the ideal reader loses nothing, never returns more than asked, and with positive buffer sizes
+   returns nothing only at the end *)
+Lemma deliver_concat : forall ns pt, concat (deliver pt ns) = ftake (fold_right N.add 0 ns) pt.
+Proof.
+  induction ns as [|n r IH]; intros pt; cbn [deliver concat fold_right].
+  - rewrite ftake_0. reflexivity.
+  - rewrite IH. rewrite <- (ftake_fdrop n pt) at 3.
+    destruct (N.le_ge_cases (len pt) n) as [H|H].
+    + rewrite fdrop_all, ftake_nil, !app_nil_r by assumption. rewrite !ftake_all by lia. reflexivity.
+    + rewrite ftake_app_ge by (rewrite len_ftake; lia). rewrite len_ftake. do 2 f_equal. lia.
+Qed.
+Lemma deliver_lens : forall ns pt, Forall2 (fun out n => len out <= n) (deliver pt ns) ns.
+Proof.
+  induction ns as [|n r IH]; intros pt; cbn [deliver]; constructor; [rewrite len_ftake; lia|apply IH].
+Qed.
+Lemma deliver_nil : forall ns, concat (deliver [] ns) = [].
+Proof. induction ns as [|n r IH]; cbn [deliver concat]; [reflexivity|]. rewrite ftake_nil, fdrop_nil. exact IH. Qed.
+Lemma deliver_complete : forall ns pt, Forall (fun n => 0 < n) ns -> In [] (deliver pt ns) ->
+  concat (deliver pt ns) = pt.
+Proof.
+  induction ns as [|n r IH]; intros pt Hp Hin; cbn [deliver concat] in *; [contradiction|].
+  inversion Hp; subst. destruct Hin as [H0|Hin].
+  - assert (Hl : len (ftake n pt) = 0) by (rewrite H0; reflexivity). rewrite len_ftake in Hl.
+    assert (pt = []) by (destruct pt; [reflexivity|unfold len in Hl; cbn [length] in Hl; lia]). subst pt.
+    rewrite ftake_nil, fdrop_nil, deliver_nil. reflexivity.
+  - rewrite (IH _ H2 Hin). apply ftake_fdrop.
+Qed.
 
 Lemma div16_step want : 16 < want -> (want - 16 + 15) / 16 = (want + 15) / 16 - 1.
 Proof.
@@ -269,6 +285,27 @@ Proof.
   destruct (N.le_ge_cases n (len l)); [replace (N.min n (len l)) with n by lia; reflexivity|].
   replace (N.min n (len l)) with (len l) by lia. rewrite !fdrop_all by lia. reflexivity.
 Qed.
+
+(* ============================== reader ============================================================ *)
+Section CBCR.
+Variable D : bytes -> bytes -> bytes.
+
+(* what the cipher stream decodes to: look-ahead block `look`, then the remaining blocks *)
+Fixpoint dec_all (k prev look : bytes) (rest : list bytes) : res bytes :=
+  let p := xor_bytes (D k look) prev in
+  match rest with
+  | [] => pkcs7_unpad_block p
+  | nx :: r => do t <- dec_all k look nx r; Ok (p ++ t)
+  end.
+(* what the reader still owes its caller *)
+Definition stream (st : cbcr) : res bytes :=
+  if r_eof st then Ok (r_rem st)
+  else do t <- dec_all (r_key st) (r_prev st) (r_look st) (chunks 16 (concat (r_src st))); Ok (r_rem st ++ t).
+Definition wf (st : cbcr) : Prop :=
+  r_eof st = false ->
+  len16 (r_look st) /\ len16 (r_prev st) /\ (length (concat (r_src st)) mod 16 = 0)%nat.
+
+Hypothesis D_len : forall k c, len16 c -> len16 (D k c).
 
 Lemma cbcr_loop_spec : forall fuel st want pt,
   r_eof st = false -> r_rem st = [] -> wf st -> 0 < want -> (N.to_nat ((want + 15) / 16) <= fuel)%nat ->
@@ -374,10 +411,6 @@ Fixpoint cbcr_read_seq (st : cbcr) (ns : list N) : res (list bytes) :=
   | [] => Ok []
   | n :: r => do (st', out) <- cbcr_read D st n; do rest <- cbcr_read_seq st' r; Ok (out :: rest)
   end.
-(* what an ideal byte-stream reader over pt delivers for the same buffer sizes *)
-Fixpoint deliver (pt : bytes) (ns : list N) : list bytes :=
-  match ns with [] => [] | n :: r => ftake n pt :: deliver (fdrop n pt) r end.
-
 Theorem cbcr_seq_spec : forall ns st pt, wf st -> stream st = Ok pt ->
   cbcr_read_seq st ns = Ok (deliver pt ns).
 Proof.
@@ -386,35 +419,12 @@ Proof.
   rewrite (IH st' _ Hwf' Hs). reflexivity.
 Qed.
 
-(* the ideal reader loses nothing, never returns more than asked, and with positive buffer sizes
-   returns nothing only at the end *)
-Lemma deliver_concat : forall ns pt, concat (deliver pt ns) = ftake (fold_right N.add 0 ns) pt.
-Proof.
-  induction ns as [|n r IH]; intros pt; cbn [deliver concat fold_right].
-  - rewrite ftake_0. reflexivity.
-  - rewrite IH. rewrite <- (ftake_fdrop n pt) at 3.
-    destruct (N.le_ge_cases (len pt) n) as [H|H].
-    + rewrite fdrop_all, ftake_nil, !app_nil_r by assumption. rewrite !ftake_all by lia. reflexivity.
-    + rewrite ftake_app_ge by (rewrite len_ftake; lia). rewrite len_ftake. do 2 f_equal. lia.
-Qed.
-Lemma deliver_lens : forall ns pt, Forall2 (fun out n => len out <= n) (deliver pt ns) ns.
-Proof.
-  induction ns as [|n r IH]; intros pt; cbn [deliver]; constructor; [rewrite len_ftake; lia|apply IH].
-Qed.
-Lemma deliver_nil : forall ns, concat (deliver [] ns) = [].
-Proof. induction ns as [|n r IH]; cbn [deliver concat]; [reflexivity|]. rewrite ftake_nil, fdrop_nil. exact IH. Qed.
-Lemma deliver_complete : forall ns pt, Forall (fun n => 0 < n) ns -> In [] (deliver pt ns) ->
-  concat (deliver pt ns) = pt.
-Proof.
-  induction ns as [|n r IH]; intros pt Hp Hin; cbn [deliver concat] in *; [contradiction|].
-  inversion Hp; subst. destruct Hin as [H0|Hin].
-  - assert (Hl : len (ftake n pt) = 0) by (rewrite H0; reflexivity). rewrite len_ftake in Hl.
-    assert (pt = []) by (destruct pt; [reflexivity|unfold len in Hl; cbn [length] in Hl; lia]). subst pt.
-    rewrite ftake_nil, fdrop_nil, deliver_nil. reflexivity.
-  - rewrite (IH _ H2 Hin). apply ftake_fdrop.
-Qed.
+End CBCR.
 
 (* ============================== round trip ======================================================== *)
+Section CBCRT.
+Variables E D : bytes -> bytes -> bytes.
+Hypothesis D_len : forall k c, len16 c -> len16 (D k c).
 Hypothesis DE : forall k b, len16 b -> D k (E k b) = b.
 Hypothesis E_len : forall k b, len16 b -> len16 (E k b).
 
@@ -422,7 +432,7 @@ Lemma dec_all_enc k : forall bs p last_blk,
   len16 p -> Forall len16 bs -> len16 last_blk ->
   match cbc_enc_blocks E k p (bs ++ [last_blk]) with
   | [] => False
-  | c0 :: cs => dec_all k p c0 cs = (do t <- pkcs7_unpad_block last_blk; Ok (concat bs ++ t))
+  | c0 :: cs => dec_all D k p c0 cs = (do t <- pkcs7_unpad_block last_blk; Ok (concat bs ++ t))
   end.
 Proof.
   induction bs as [|b bs IH]; intros p lb Hp Hbs Hlb; cbn [app cbc_enc_blocks].
@@ -439,7 +449,7 @@ Qed.
 
 Lemma dec_all_enc' k bs p lb c0 cs : len16 p -> Forall len16 bs -> len16 lb ->
   cbc_enc_blocks E k p (bs ++ [lb]) = c0 :: cs ->
-  dec_all k p c0 cs = (do t <- pkcs7_unpad_block lb; Ok (concat bs ++ t)).
+  dec_all D k p c0 cs = (do t <- pkcs7_unpad_block lb; Ok (concat bs ++ t)).
 Proof. intros Hp Hbs Hlb He. pose proof (dec_all_enc k bs p lb Hp Hbs Hlb) as H. rewrite He in H. exact H. Qed.
 
 Lemma enc_blocks_length k : forall bs p, length (cbc_enc_blocks E k p bs) = length bs.
@@ -448,7 +458,7 @@ Proof. induction bs; intros; cbn; [reflexivity|]. rewrite IHbs. reflexivity. Qed
 (* the reader constructed over ANY cut of the ciphertext of m owes exactly m *)
 Theorem cbcr_new_spec : forall key iv m chunks, key_iv_ok key iv = true ->
   concat chunks = cbc_enc E key iv (pkcs7 m) ->
-  exists st, cbcr_new key iv chunks = Ok st /\ stream st = Ok m /\ wf st.
+  exists st, cbcr_new key iv chunks = Ok st /\ stream D st = Ok m /\ wf st.
 Proof.
   intros key iv m chs Hok Hct.
   assert (Hiv : len16 iv).
@@ -474,7 +484,7 @@ Proof.
   pose proof (pad_block_len _ Ht) as Hpb.
   rewrite chunks_small in Hct; [| |rewrite Hpb; lia].
   2:{ intros Hn. unfold len16 in Hpb. rewrite Hn in Hpb. discriminate. }
-  destruct (enc_blocks_len16 E_len key (bs ++ [pkcs7_pad_block t]) iv Hiv) as [Hcs0 _].
+  destruct (enc_blocks_len16 E E_len key (bs ++ [pkcs7_pad_block t]) iv Hiv) as [Hcs0 _].
   { apply Forall_app; split; [assumption|constructor; [assumption|constructor]]. }
   assert (Hex : exists c0 cs, cbc_enc_blocks E key iv (bs ++ [pkcs7_pad_block t]) = c0 :: cs)
     by (destruct bs; cbn; eauto).
@@ -507,13 +517,13 @@ Qed.
 Theorem cbc_roundtrip : forall key iv ws s0 s' calls chunks ns,
   cbcw_new key iv = Ok s0 -> cbcw_writes E s0 ws = (s', calls) ->
   concat chunks = concat (concat (map snd calls)) ++ concat (cbcw_finish E s') ->
-  exists st, cbcr_new key iv chunks = Ok st /\ cbcr_read_seq st ns = Ok (deliver (concat ws) ns).
+  exists st, cbcr_new key iv chunks = Ok st /\ cbcr_read_seq D st ns = Ok (deliver (concat ws) ns).
 Proof.
   intros key iv ws s0 s' calls chs ns Hnew Hw Hct.
-  destruct (cbcw_spec key iv ws s0 s' calls Hnew Hw) as (Henc & _ & _). rewrite Henc in Hct.
+  destruct (cbcw_spec E key iv ws s0 s' calls Hnew Hw) as (Henc & _ & _). rewrite Henc in Hct.
   assert (Hok : key_iv_ok key iv = true) by (unfold cbcw_new in Hnew; destruct (key_iv_ok key iv); [reflexivity|discriminate]).
   destruct (cbcr_new_spec key iv (concat ws) chs Hok Hct) as (st & Hn & Hs & Hwf).
-  exists st. split; [exact Hn|]. apply cbcr_seq_spec; assumption.
+  exists st. split; [exact Hn|]. apply (cbcr_seq_spec D D_len); assumption.
 Qed.
 
-End CBC.
+End CBCRT.
